@@ -135,7 +135,8 @@ def impl(case):
             elif prev == 'bytes':
                 path.write_bytes(b'not an array file at all ' * 40)
             T.export_waveforms(path, traces, spikes, chans if case.get('chkind') == 'array' else chans.tolist(),
-                               n_samples_waveforms=n, sample2unit=case['factor'], cache=bool(case.get('cache')))
+                               n_samples_waveforms=(np.int64(n) if case.get('nkind') == 'np' else n),     # window length as a NumPy integer
+                               sample2unit=case['factor'], cache=bool(case.get('cache')))
             arr = np.load(path)
             res = dict(shape=list(arr.shape), dtype=str(arr.dtype), vals=arr.tolist(),
                        ivs=[[int(a), int(b)] for a, b in traces.iter_chunks()],
@@ -309,6 +310,7 @@ def nontrivial(case):
 def tally(rep, case, impl_res, ans):
     if case['op'] in ('export', 'lookup'):
         rep.count('export_cache:%s' % bool(case.get('cache')))
+        rep.count('window_length_given_as:%s' % ('numpy integer' if case.get('nkind') == 'np' else 'int'))
         rep.count('destination_before_the_export:%s' % {'export': 'an earlier export', 'bytes': 'foreign bytes'}.get(case.get('prev'), 'absent'))
     rep.count('op:' + case['op'])
     if case['op'] == 'model_store':
@@ -448,6 +450,8 @@ def gen(tier, rng):
                  chkind=['array', 'list'][(k // 2) % 2], cache=bool((k // 3) % 2))
         c.update(be)
         c['prev'] = ['none', 'export', 'none', 'bytes', 'export'][k % 5 if k % 7 else 1]
+        if k % 6 == 2:
+            c['nkind'] = 'np'
         if dtype == 'int16' and k % 4 == 0:
             c['bias'] = 20000        # products with an int factor exceed the int16 range
         if dtype == 'float32' and k % 4 == 1:
